@@ -11,8 +11,8 @@ pub struct C03;
 
 fn n_cases(tier: Tier) -> u64 {
     match tier {
-        Tier::Quick => 40_000,
-        Tier::Thorough => 1_000_000,
+        Tier::Quick => 200_000,
+        Tier::Thorough => 5_000_000,
     }
 }
 
